@@ -345,6 +345,10 @@ fn run(ctx: &mut Ctx) {
         HistSpec { init: texts(&["DEFCAL X 0:\n\tY 7", "Y 7", "DEFCAL X 0:\n\tY 13"]), ops: vec![] },
         HistSpec { init: texts(&["DEFCAL MEASURE 2 addr:\n\tX 11", "DEFCAL MEASURE 2 addr:\n\tX 2", "MEASURE 2 ro[0]"]), ops: vec![OpSpec::ExpCal { with_map: false }] },
         HistSpec { init: texts(&["DEFCAL I 6:\n\tI 6", "I 6"]), ops: vec![OpSpec::ExpCal { with_map: false }, OpSpec::Simplify] },
+        HistSpec {
+            init: texts(&["PRAGMA EXTERN foo legacy \"(c : REAL)\"", "PRAGMA EXTERN bar legacy \"(c : REAL)\"", "CALL foo acc[0]", "DECLARE acc INTEGER[2]"]),
+            ops: vec![OpSpec::Add(parse_one("PRAGMA EXTERN foo \"INTEGER (x : INTEGER)\"")), OpSpec::Simplify],
+        },
         // simplify keeps a frame that calibration expansion hoisted out of a calibration body (fix 768d37f)
         HistSpec { init: pool.defs.iter().filter(|d| qvh::progs::text_of(d).starts_with("DEFCAL W 3")).cloned().chain(texts(&["W 3", "PULSE 3 \"aux\" wf"])).collect(), ops: vec![OpSpec::Simplify] },
         HistSpec { init: texts(&["DEFCAL RX(pi) 0:\n\tX 30", "DEFCAL DAGGER RX(pi) 0:\n\tX 31", "RX(pi) 0", "DAGGER RX(pi) 0"]), ops: vec![OpSpec::ExpCal { with_map: false }] },
